@@ -150,6 +150,8 @@ Proof.
   destruct (u_out (sync_core g k id (h_pend h) (k_fired (ks st k)))); try reflexivity.
   destruct (tbl_has id (k_tbl (ks st k))); [reflexivity|simpl; discriminate].
 Qed.
+Lemma step_pickle g st k id : step g st (OPickle k id) = step g st (OSync k id).
+Proof. reflexivity. Qed.
 Ltac syncfull k id :=
   let Hs0 := fresh "Hs0" in let E := fresh "E" in
   intro Hs0; pose proof (step_syncfull_ok _ _ k id Hs0) as E; rewrite E in *; clear E; revert Hs0.
@@ -158,10 +160,10 @@ Ltac syncfull k id :=
 Lemma step_spec g st o :
   succeeded (snd (fst (step g st o))) = true -> snd (step g st o) = spec_events g st o.
 Proof.
-  destruct o as [k kw0|k id c v|k id kw0|k id|k id|k id fr|k|k id|k id];
+  destruct o as [k kw0|k id c v|k id kw0|k id|k id|k id fr|k|k id|k id|k id];
     [|rewrite step_assign_is_set; change (spec_events g st (OAssign k id c v)) with (spec_events g st (OSet k id [(c, v)]));
       set (kw0 := [(c, v)])| | | | | | |
-     syncfull k id; change (spec_events g st (OSyncFull k id)) with (spec_events g st (OSync k id))]; unfold step.
+     syncfull k id; change (spec_events g st (OSyncFull k id)) with (spec_events g st (OSync k id))|]; unfold step.
   - destruct (raiser _ (sel SCreate (tab g k))); [simpl; discriminate|].
     destruct (fill_defaults all_cols _) as [kw2|] eqn:Hf; [|simpl; discriminate].
     destruct (negb (validate kw2)); [simpl; discriminate|]. cbn [fst snd]. intros Hs.
@@ -197,6 +199,10 @@ Proof.
     destruct (h_get id (k_hs (ks st k))) as [h|] eqn:Hh; [|simpl; discriminate].
     unfold commit_ures. cbn [fst snd]. intros Hs. rewrite (sync_core_ok _ _ _ _ _ Hs). unfold sync_quiet.
     destruct (is_nil (h_pend h)); simpl; reflexivity.
+  - unfold with_handle, spec_events, pend_of.
+    destruct (h_get id (k_hs (ks st k))) as [h|] eqn:Hh; [|simpl; discriminate].
+    unfold commit_ures. cbn [fst snd]. intros Hs. rewrite (sync_core_ok _ _ _ _ _ Hs). unfold sync_quiet.
+    destruct (is_nil (h_pend h)); simpl; reflexivity.
 Qed.
 
 (* fetching: no event of any kind, nothing changes *)
@@ -212,11 +218,11 @@ Lemma step_table g st o :
   succeeded (snd (fst (step g st o))) = true ->
   k_tbl (ks (fst (fst (step g st o))) (op_cls o)) = spec_table g st o.
 Proof.
-  destruct o as [k kw0|k id c v|k id kw0|k id|k id|k id fr|k|k id|k id];
+  destruct o as [k kw0|k id c v|k id kw0|k id|k id|k id fr|k|k id|k id|k id];
     [|rewrite step_assign_is_set; change (spec_table g st (OAssign k id c v)) with (spec_table g st (OSet k id [(c, v)]));
       change (op_cls (OAssign k id c v)) with (op_cls (OSet k id [(c, v)])); set (kw0 := [(c, v)])| | | | | | |
      syncfull k id; change (spec_table g st (OSyncFull k id)) with (spec_table g st (OSync k id));
-     change (op_cls (OSyncFull k id)) with (op_cls (OSync k id))];
+     change (op_cls (OSyncFull k id)) with (op_cls (OSync k id))|];
     unfold step; simpl op_cls.
   - destruct (raiser _ (sel SCreate (tab g k))); [simpl; discriminate|].
     destruct (fill_defaults all_cols _) as [kw2|] eqn:Hf; [|simpl; discriminate].
@@ -258,13 +264,19 @@ Proof.
     destruct (is_nil (h_pend h)) eqn:E; simpl; rewrite ks_set_same; simpl.
     + apply is_nil_true in E. rewrite E, sort_cols_nil, tbl_update_nil. reflexivity.
     + reflexivity.
+  - unfold with_handle, spec_table, pend_of.
+    destruct (h_get id (k_hs (ks st k))) as [h|] eqn:Hh; [|simpl; discriminate].
+    unfold commit_ures. cbn [fst snd]. intros Hs. rewrite (sync_core_ok _ _ _ _ _ Hs). unfold sync_quiet.
+    destruct (is_nil (h_pend h)) eqn:E; simpl; rewrite ks_set_same; simpl.
+    + apply is_nil_true in E. rewrite E, sort_cols_nil, tbl_update_nil. reflexivity.
+    + reflexivity.
 Qed.
 
 Lemma step_pend g st o k id :
   succeeded (snd (fst (step g st o))) = true -> op_target o = Some (k, id) ->
   pend_of (fst (fst (step g st o))) k id = spec_pend g st o.
 Proof.
-  destruct o as [k0 kw0|k0 id0 c v|k0 id0 kw0|k0 id0|k0 id0|k0 id0 fr|k0|k0 id0|k0 id0]; simpl op_target;
+  destruct o as [k0 kw0|k0 id0 c v|k0 id0 kw0|k0 id0|k0 id0|k0 id0 fr|k0|k0 id0|k0 id0|k0 id0]; simpl op_target;
     intros Hs Ht; try discriminate; inversion Ht; subst k0 id0; clear Ht; revert Hs.
   - rewrite step_assign_is_set. change (spec_pend g st (OAssign k id c v)) with (spec_pend g st (OSet k id [(c, v)])).
     unfold step, with_handle, spec_pend, pend_of.
@@ -289,6 +301,11 @@ Proof.
     cbn [fst snd]. intros _. rewrite ks_set_same. simpl. rewrite h_get_put_same. reflexivity.
   - syncfull k id. change (spec_pend g st (OSyncFull k id)) with (spec_pend g st (OSync k id)).
     unfold step, with_handle, spec_pend, pend_of.
+    destruct (h_get id (k_hs (ks st k))) as [h|] eqn:Hh; [|simpl; discriminate].
+    unfold commit_ures. cbn [fst snd]. intros Hs. rewrite (sync_core_ok _ _ _ _ _ Hs). unfold sync_quiet.
+    destruct (is_nil (h_pend h)) eqn:E; simpl; rewrite ks_set_same; simpl;
+      rewrite h_get_put_same; simpl; [apply is_nil_true in E; exact E|reflexivity].
+  - unfold step, with_handle, spec_pend, pend_of.
     destruct (h_get id (k_hs (ks st k))) as [h|] eqn:Hh; [|simpl; discriminate].
     unfold commit_ures. cbn [fst snd]. intros Hs. rewrite (sync_core_ok _ _ _ _ _ Hs). unfold sync_quiet.
     destruct (is_nil (h_pend h)) eqn:E; simpl; rewrite ks_set_same; simpl;
